@@ -494,19 +494,6 @@ class Ref:
         return r, out, o2, chain
 
 
-def reads_consistent(v, o2, impls):
-    """every (key, value) the stored value says it read is what the current options give"""
-    if v[0] == "cb":
-        return reads_consistent(v[2], o2, impls)
-    dsc = impls[v[1]]
-    dfl = {k: df for k, df in dsc["reads"]}
-    for k, x in v[2]:
-        cur = o2.get(k, dfl.get(k))
-        if cur is None or pv(cur) != x:
-            return False
-    return True
-
-
 # ----------------------------------------------------------------------------- Coq rendering
 
 def c_opt(x, f=str):
@@ -589,11 +576,10 @@ def render_scenario(sc, fn="observe"):
 
 # ----------------------------------------------------------------------------- running one scenario
 
-def verify(ref, w, impls, legit, missed, d, o, actual, new_recs, top=True):
+def verify(ref, w, impls, legit, missed, d, o, actual, new_recs, taints, top=True):
     """The property, checked top-down on the value an evaluation returned.  A dataset whose effect
     did not run during this call was served from its cache: its value must be one an earlier
-    evaluation computed for that cache under the SAME dispatch outcome (and, when the same
-    implementations are still bound, from the same option values).  A dataset that was computed
+    evaluation computed for that cache under the SAME dispatch outcome.  A dataset that was computed
     now must return callback(outcome of the implementation the reference picks NOW), recursively.
     Returns None or a dict describing the failure (with its zone)."""
     x = ref.ds[d]
@@ -618,14 +604,14 @@ def verify(ref, w, impls, legit, missed, d, o, actual, new_recs, top=True):
                 zone = "D22"
             else:
                 zone = None
-            return dict(zone=zone, dataset=d, dispatch_now=list(out),
-                        dispatch_when_stored=[list(r["outcome"]) for r in recs],
-                        desc="a value stored for one dispatch value was returned for another")
-        chain = ref.eval(d, o)[3]
-        if any(r["chain"] == chain for r in same) and not reads_consistent(actual, o2, impls):
-            # (only when the same implementations are bound now as when it was stored: after a
-            #  re-registration the evaluation counts as "already stored" under the new keys)
-            return dict(zone=None, dataset=d, desc="served value was computed from other option values than the current ones")
+            bad = dict(zone=zone, dataset=d, dispatch_now=list(out),
+                       dispatch_when_stored=[list(r["outcome"]) for r in recs],
+                       desc="a value stored for one dispatch value was returned for another")
+            if zone is None:
+                return bad
+            # inside the zone of a known finding: report it (tagged only if the model agrees) and go
+            # on, so that values computed FROM this one are not reported a second time as unexplained
+            taints.append(bad)
         return None
     # computed now
     if impl is None:
@@ -644,7 +630,7 @@ def verify(ref, w, impls, legit, missed, d, o, actual, new_recs, top=True):
             return dict(zone=None, dataset=d, expected=World.show_val(exp[1]) if exp[0] == "v" else "failure",
                         desc="computed value is not callback(implementation registered for the current dispatch value / default)")
     else:
-        bad = verify(ref, w, impls, legit, missed, impl[1], o2, inner, new_recs, top=False)
+        bad = verify(ref, w, impls, legit, missed, impl[1], o2, inner, new_recs, taints, top=False)
         if bad is not None:
             return bad
     new_recs.append(dict(cache=x["cache"], value=actual, outcome=out, disp=copy.deepcopy(x["disp"]),
@@ -683,13 +669,15 @@ def run_impl(L, sc):
             else:
                 if got[2]:
                     stats["hits"] += 1
-                new_recs = []
-                bad = verify(ref, w, impls, legit, missed, op[1], {kk: v for kk, v in op[2]}, got[1], new_recs)
+                new_recs, taints = [], []
+                bad = verify(ref, w, impls, legit, missed, op[1], {kk: v for kk, v in op[2]}, got[1], new_recs, taints)
                 if bad is None:
                     for rec in new_recs:
                         legit.setdefault(rec["cache"], []).append(rec)
                 else:
                     cands.append(dict(op=idx, got=obs, **bad))
+                for t in taints:
+                    cands.append(dict(op=idx, got=obs, **t))
         else:
             expect = ref.expect(op)
             obs = w.apply(op)
